@@ -13,6 +13,10 @@ CHECKS = [
       technique="bounded-exhaustive operand products on the real interpreter vs. Python big-int/IEEE/Fraction reference",
       text="Exhaustive enumeration of (operator, call route, ordered operand tuple) over boundary-dense operand sets (2^k, 2^k+-1 for every k, INT64/UINT64 extremes, fractions, infinities, numeric strings) for all arithmetic, bitwise, shift, comparison and compare-family operators on int/s64, int/u64, numbers and strings in every type pairing and both orders, executed in the real interpreter and compared value-for-value with an independent Python reference (big ints mod 2^64, IEEE doubles, exact rationals).",
       note="Trusted: the Python reference model (props/C14/model.py) and the conventions listed in props/C14/NOTES.md; cases where C leaves the result undefined (shift counts outside 0..63 / 0..31) are excluded and counted."),
+ dict(id="C18",
+      technique="exhaustive product flags x core functions x argument shapes x thread, judged by a libc interposer on the real interpreter",
+      text="Exhaustive product of capability configurations (each flag, each group, all pairs in the thorough tier) x every function binding of the core environment (enumerated at run time) x argument tuples of length 0..2 over an 18-shape menu x {calling thread, thread started after sandboxing}. Every libc entry made by janet's own objects is intercepted with -Wl,--wrap and classified; a call whose class is disabled in the calling thread's flag word is a violation whatever the function returned. Plus all ordered pairs of sandbox options for monotonicity.",
+      note="Trusted: the classification table in engine/harness/sbxwrap.c; calls made by libc on its own behalf are not attributed to janet; opening /dev/urandom for os/cryptorand is not counted as a file-system read; os/environ and raw-pointer FFI use are outside what a libc interposer can see. 25 functions are never called (props/C18/check.py BLOCK, with reasons)."),
 ]
 _ALL = ["C%02d" % i for i in range(1, 21)]
 def _na():
